@@ -2,7 +2,7 @@
 
 A. For small complete programs TLC enumerates every layout reachable with MaxActs layout actions (indent, backslash
    split, connective split, blank / comment line, trailing comment) and checks Join(lines) = Cmds on each; deeper
-   layouts come from TLC -simulate.  Every layout is printed as text, built with the real Builder and run for 6 ticks
+   layouts are drawn at random with the same actions and judged by TLC as in B.  Every layout is printed as text, built with the real Builder and run for 6 ticks
    with the real Skedder; the projected house (before and after link resolution), the recorded run and the word lists
    given to Builder.dispatch must equal those of the canonical layout.
 B. The example plans that build stand-alone are re-laid out at random with the same actions (implemented here); the
@@ -271,9 +271,9 @@ def emitted(res):
     return [json.loads(json.loads(ln)) for ln in res.out.splitlines() if ln.startswith('"{')]
 
 
-def cfg_text(maxacts, emit=True):
+def cfg_text(maxacts, emit="all"):
     s = open(SPEC_DIR + "/Layout.cfg").read()
-    return s.replace("MaxActs = 2", "MaxActs = %d" % maxacts).replace("Emit = FALSE", "Emit = %s" % ("TRUE" if emit else "FALSE"))
+    return s.replace("MaxActs = 2", "MaxActs = %d" % maxacts).replace('Emit = "none"', 'Emit = "%s"' % emit)
 
 
 def plans():
@@ -288,16 +288,20 @@ def plans():
 
 def run_c16(ctx):
     ctx.rule = ("A: every layout reachable with MaxActs layout actions from the canonical layout of small complete programs "
-                "(TLC exhaustive) plus random deeper layouts (TLC -simulate); B: seeded random layouts of the example plans, "
+                "(TLC exhaustive) plus seeded random deeper layouts judged by TLC (LayoutCases); B: seeded random layouts of the example plans, "
                 "validated by TLC against the documented reading; distinct = distinct layouts built")
     B.install()
     work = env.subdir("c16")
     nproc = min(env.NCPU, 8)
     total = nexh = 0
     # ---------------- A
+    rng = random.Random(ctx.seed)
+    cases = []
     maxacts = 2
     for name, prog in PROGRAMS.items():
-        depth_only = ctx.quick and name != "compact"
+        # exhaustive enumeration: the compact program always, `transitions` in the thorough tier; `auxiliaries` (30 commands,
+        # tens of thousands of two-action layouts) only by random deeper layouts
+        depth_only = name == "auxiliaries" or (ctx.quick and name != "compact")
         cmds = [words(c) for c in prog]
         inp = os.path.join(work, name + ".json")
         with open(inp, "w") as f:
@@ -316,15 +320,10 @@ def run_c16(ctx):
                 raise tlc.TlcError("Layout: %d layouts printed for %d distinct states" % (len(rows), res.distinct))
             layouts = [r["lines"] for r in rows]
             nexh += len(layouts)
-        nsim = ctx.pick(150, 3000)
-        sim = tlc.run("Layout", cfg_text(ctx.pick(8, 12)), spec_dir=SPEC_DIR, extra_env={"LAYOUT_INPUT": inp},
-                      simulate={"num": nsim, "depth": ctx.pick(9, 13)}, seed=ctx.seed, tag="c16sim" + name, coverage=False)
-        ctx.add_model(sim, "Layout-simulate/" + name, {"behaviours": nsim})
-        if not sim.ok:
-            ctx.diverge(Divergence("C16", "model", sim.error_name or sim.error, "Layout", "specification property violated in the model (simulation)",
-                                   steps=[{"action": a, "state": s} for a, s in sim.trace]))
-            return
-        deep = [r["lines"] for r in emitted(sim) if r["n"] >= 3]
+        # deeper layouts: the same actions applied at random here; TLC judges below (LayoutCases) that each is a layout
+        # of the program by the documented reading
+        ndeep = ctx.pick(120, 2500)
+        deep = [random_layout(rng, cmds, rng.randint(3, 14)) for _ in range(ndeep)]
         seen = set()
         uniq = []
         for l in layouts + deep:
@@ -336,18 +335,25 @@ def run_c16(ctx):
         ref = eval_layout(render(canonical(cmds)))
         ref["text"] = render(canonical(cmds))
         if ref["outcome"] != "built" or ref["dispatch"] != cmds:
-            raise tlc.TlcError("C16: the canonical layout of program %s is not built as written: %s %s" % (name, ref["outcome"], ref["msg"]))
+            # one command per line, no indentation: the documented reading is the script itself
+            k = next((i for i, (a, b) in enumerate(zip(ref["dispatch"] or [], cmds)) if a != b), 0)
+            ctx.diverge(Divergence("C16", "state-mismatch", "canonical", "dispatch" if ref["outcome"] == "built" else "outcome",
+                                   "the canonical layout of program %s is not read as written: %s %s command %d read as %r" % (
+                                       name, ref["etype"] or ref["outcome"], " ".join(ref["msg"].split())[:120], k + 1,
+                                       (ref["dispatch"] or [None] * (k + 1))[k] if k < len(ref["dispatch"] or []) else None),
+                                   steps=[{"script": ref["text"]}], expected=cmds, actual=ref["dispatch"]))
+            continue
         if "Rec" not in eval_layout(ref["text"], full=True)["events"]:
             raise tlc.TlcError("C16 vacuous: the run of program %s records nothing" % name)
         results = pmap(texts, True, nproc, cmds)
         for l, t, r in zip(uniq, texts, results):
             compare(ctx, name, cmds, l, ref, r, t)
+        for l, r in list(zip(uniq, results))[len(layouts):]:
+            cases.append({"lines": l, "cmds": cmds, "dispatched": cmds if r["dispatch"] is True else (r["dispatch"] or [])})
         total += len(uniq)
         ctx.add_validated(len(uniq), {"program": name, "layout": describe(uniq[len(uniq) // 2], cmds), "text": texts[len(uniq) // 2][:400]})
     # ---------------- B
-    rng = random.Random(ctx.seed)
     per_plan = ctx.pick(12, 150)
-    cases = []
     nplans = 0
     for fname, text in plans():
         orig = eval_layout(text, run=False)
@@ -367,7 +373,7 @@ def run_c16(ctx):
             compare(ctx, fname, cmds, l, ref, r, t)
             cases.append({"lines": l, "cmds": cmds, "dispatched": r["dispatch"] or []})
         total += len(lays)
-    if nplans < 20:
+    if nplans < 20 and not ctx.divs:
         raise tlc.TlcError("C16 vacuous: only %d example plans build stand-alone" % nplans)
     # TLC decides whether every random layout is a layout of its script and was read as documented
     bad = validate_cases(ctx, cases, work)
